@@ -498,6 +498,51 @@ end Pytask
 namespace Pytask
 namespace Engine
 
+/-- The convergence argument with the scheduling facts as hypotheses (`DataOrdered`, `FrameOrdered`, bipartite graph);
+`Lemmas/EngineGraph.lean` derives them from `createDag` and the C01 theorems, `Properties/C05.lean` states the result. -/
+theorem converge_abstract (F : BodyFn) (P : Project) (g : G) (cfg cfg' : Cfg)
+    (hwf : WF P g) (hwf2 : WF2 P) (hbip : ∀ t, ∀ v ∈ neighbours g t, isTaskV v = true → v = tv t)
+    -- the killed build
+    (so0 so1 : Sorter) (s0 s1 : Sess) (hrc : RC F P g s0.w.db) (done : List Nat) (tstar : Nat) (specS : TaskSpec)
+    (hloop1 : buildLoop F P g cfg so0 s0 done = .ok (so1, s1)) (hgood1 : ∀ rep ∈ s1.reports, GoodOutcome rep.2)
+    (hfindS : Project.find? P tstar = some specS) (hord1 : DataOrdered P (fun _ => False) (done ++ [tstar]))
+    (j : Nat) (w1 : World) (hw1 : w1 = applySteps s1.w ((protocolSteps F P g cfg s1 specS).take j))
+    -- the recovery build
+    (so2 so3 : Sorter) (s2 s3 : Sess) (hs2 : s2.w = w1) (picks2 : List Nat)
+    (hloop2 : buildLoop F P g cfg' so2 s2 picks2 = .ok (so3, s3)) (hgood2 : ∀ rep ∈ s3.reports, GoodOutcome rep.2)
+    (hcr : s3.crashed = false) (hall : ∀ t ∈ P.tasks, t.id ∈ picks2)
+    (hord2 : DataOrdered P (fun _ => False) picks2) (hframe2 : FrameOrdered P g [] picks2) :
+    (∀ t ∈ P.tasks, Fresh F s3.w t) ∧ (∀ t ∈ P.tasks, RowsMatch P g s3.w t.id) ∧
+    (∀ (cfg'' : Cfg) (so4 so5 : Sorter) (s4 s5 : Sess) (picks : List Nat), cfg''.force = false → s4.w = s3.w →
+        buildLoop F P g cfg'' so4 s4 picks = .ok (so5, s5) → s5.log = s4.log ∧ s5.w = s4.w) := by
+  -- settled set after the completed part of the killed build
+  have q1 := q_loop hwf hwf2 cfg done so0 s0 so1 s1 (fun _ => False) (Q.of_rc hrc) hloop1 hgood1
+    (by
+      intro pre t post hp spec hf u hu hd
+      exact hord1 pre t (post ++ [tstar]) (by rw [hp]; simp) spec hf u hu hd)
+  -- … and at the kill point inside the protocol of `tstar`
+  have hprodS : ∀ u ∈ P.tasks, (∃ d ∈ specS.deps, d ∈ u.prods) → (False ∨ u.id ∈ done) :=
+    fun u hu hd => hord1 done tstar [] rfl specS hfindS u hu hd
+  obtain ⟨A1, hA1, q2⟩ := q_protocol_prefix hwf hwf2 cfg s1 specS (mem_of_find? hfindS) _ q1 hprodS j
+  rw [← hw1, ← hs2] at q2
+  -- the recovery build settles everything
+  have q3 := q_loop hwf hwf2 cfg' picks2 so2 s2 so3 s3 A1 q2 hloop2 hgood2 (hord2.mono (fun _ h => h.elim))
+  have hfresh := q3.allFresh (fun t ht => Or.inr (hall t ht))
+  have hrows : ∀ t ∈ P.tasks, RowsMatch P g s3.w t.id := by
+    have := rowsMatch_loop hwf hbip cfg' picks2 so2 s2 so3 s3 [] (fun _ h => by cases h) hloop2 hgood2 hcr hframe2
+    intro t ht
+    exact this t.id (by simpa using hall t ht)
+  refine ⟨hfresh, hrows, ?_⟩
+  intro cfg'' so4 so5 s4 s5 picks hforce hw4 hloop
+  exact quiet_loop hwf cfg'' hforce picks so4 s4 so5 s5 (by rw [hw4]; exact hrows) hloop
+
+
+end Engine
+end Pytask
+
+namespace Pytask
+namespace Engine
+
 /-- bipartite graphs: a decidable sufficient condition for `hbip` -/
 theorem bip_of_edges (g : G) (h : ∀ e ∈ g.edges, isTaskV e.1 ≠ isTaskV e.2) :
     ∀ t, ∀ v ∈ neighbours g t, isTaskV v = true → v = tv t := by
